@@ -255,7 +255,10 @@ def run(case):
                         problems.append(f"{k}: accessor failed {type(ex).__name__}")
                         continue
                     diff = [((a - e["value"] + 180.0) % 360.0 - 180.0) if e["deg"] else (a - e["value"]) for a, e in zip(vals, grp)]
-                    if np.allclose(diff, 0, rtol=0, atol=1e-9 * max(1.0, max(abs(e["value"]) for e in grp))):
+                    # (times: a few nanoseconds, whatever the offset from the reference time - a Time keeps two doubles)
+                    tol = 5e-9 if all(e["ptype"] == "time" for e in grp) and max(abs(e["value"]) for e in grp) < 1e6 else \
+                        1e-9 * max(1.0, max(abs(e["value"]) for e in grp))
+                    if np.allclose(diff, 0, rtol=0, atol=tol):
                         hit = k
                         break
                     problems.append(f"{k} holds {vals}")
